@@ -219,6 +219,8 @@ def make_instance(st, cls, owner, mode="live", bk=False, opts=None):
         n = z3.Int(p + ".size")
         st.add(n >= 1)
         f["values"] = child_list(st, o, "values", n, is_tuple=True, bk=bk)
+        if cls == "Branch":
+            f["%ialias"] = f["values"]  # i0..i9 alias the elements of this tuple (set by the constructor)
         if cls == "Index":
             shape_uniform_list(st, o, "values", n, classes_only=True)
     elif cls == "Bag":
